@@ -38,9 +38,13 @@ func c11Data(t *rapid.T) (bq.Dataset, bq.Universe) {
 	u.Nodes = u.Nodes[:4]
 	u.PredIDs = u.PredIDs[:2]
 	u.Anchors = u.Anchors[:3]
-	u.Lits = []model.LitSpec{{Kind: "int64", I: 1}, {Kind: "int64", I: 2}, {Kind: "int64", I: -5}, {Kind: "int64", I: 40},
-		{Kind: "float64", F: 0x3ff8000000000000}, {Kind: "float64", F: 0xc002000000000000}, {Kind: "float64", F: 0x4024000000000000},
-		{Kind: "text", S: "x"}, {Kind: "text", S: "y"}, {Kind: "bool", B: true}}
+	// ints: small ones and two neighbours beyond 2^53 (distinct as integers, equal as float64);
+	// floats: ordinary ones, two pairs that differ only after the 6th decimal; text/bool look-alikes of numbers
+	ints := []model.LitSpec{{Kind: "int64", I: 1}, {Kind: "int64", I: 2}, {Kind: "int64", I: -5}, {Kind: "int64", I: 40}, {Kind: "int64", I: 9007199254740993}, {Kind: "int64", I: 9007199254740994}}
+	floats := []model.LitSpec{{Kind: "float64", F: 0x3ff8000000000000}, {Kind: "float64", F: 0xc002000000000000}, {Kind: "float64", F: 0x4024000000000000},
+		{Kind: "float64", F: 0x3ff000001ad7f29b}, {Kind: "float64", F: 0x3ff0000035afe535}, {Kind: "float64", F: math.Float64bits(1e-7)}, {Kind: "float64", F: math.Float64bits(2e-7)}, {Kind: "float64", F: 0x3ff0000000000000}}
+	u.Lits = append(append(append([]model.LitSpec{}, ints...), floats...),
+		model.LitSpec{Kind: "text", S: "x"}, model.LitSpec{Kind: "text", S: "y"}, model.LitSpec{Kind: "bool", B: true}, model.LitSpec{Kind: "text", S: "1"}, model.LitSpec{Kind: "text", S: "true"})
 	d := bq.Dataset{}
 	ng := 1 + gen.Uniform(t, 2, "ngraphs")
 	for g := 0; g < ng; g++ {
@@ -52,10 +56,10 @@ func c11Data(t *rapid.T) (bq.Dataset, bq.Universe) {
 			tr := model.TripleSpec{S: gen.Pick(t, u.Nodes, "s"), P: u.GenPred(t, "p")}
 			switch k := gen.Uniform(t, 10, "ok"); {
 			case k < 3: // int column
-				l := gen.Pick(t, u.Lits[:4], "oi")
+				l := gen.Pick(t, ints, "oi")
 				tr.O = model.ObjSpec{L: &l}
 			case k < 5: // float column
-				l := gen.Pick(t, u.Lits[4:7], "of")
+				l := gen.Pick(t, floats, "of")
 				tr.O = model.ObjSpec{L: &l}
 			case k < 8:
 				nn := gen.Pick(t, u.Nodes, "on")
